@@ -517,6 +517,12 @@ func (fc *fileCtx) rangeStmt(r *ast.RangeStmt) {
 		return
 	}
 
+	if _, ok := t.Underlying().(*types.Slice); ok && race {
+		fc.rangeSlice(r)
+
+		return
+	}
+
 	if _, ok := t.Underlying().(*types.Map); !ok {
 		return
 	}
@@ -593,4 +599,28 @@ func (fc *fileCtx) funcAt(p token.Pos) string {
 	}
 
 	return "?"
+}
+
+// rangeSlice (race mode): `for i, v := range S {` reads element i in iteration i; the detector is
+// told about exactly those reads:  { zzS := S; for i, v := range zzS { _ = zzverifsim.R(&zzS[i], pos); ...
+func (fc *fileCtx) rangeSlice(r *ast.RangeStmt) {
+	val, ok := r.Value.(*ast.Ident)
+	if !ok || val.Name == "_" || r.Tok != token.DEFINE {
+		return // no element is read
+	}
+
+	counter++
+	n := counter
+	sl := fmt.Sprintf("zzvS%d", n)
+
+	key := fmt.Sprintf("zzvI%d", n)
+	if id, ok := r.Key.(*ast.Ident); ok && id.Name != "_" {
+		key = id.Name
+	}
+
+	hdr := fmt.Sprintf("{ %s := %s; for %s, %s := range %s { _ = zzverifsim.R(&%s[%s], %q); ", sl, fc.text(r.X), key, val.Name, sl, sl, key,
+		fc.label(r.Pos())+"|"+fc.funcAt(r.Pos())+":slice-range")
+	fc.replace(r.Pos(), r.Body.Lbrace+1, hdr)
+	fc.insert(r.End(), " }", 8)
+	stats["race.slicerange"]++
 }
